@@ -180,6 +180,9 @@ def class_histogram(verdicts):
 A_DEGEN = dict(Leaves=["i1", "au0"], UnOps=[], BinOps=[], Stmts=["Nop", "Store", "Approve", "Return"],
                Ctrl=["Seq2", "Seq3", "If2", "If3", "While", "For", "Break", "Continue", "EmptySeq", "VSeq"],
                NVarsU=1, NVarsB=0, InitVars=False)
+# first stores inside conditional arms next to arms that leave the program, loads after the join (few alternatives, so deep)
+A_INITARM = dict(Leaves=["i1", "au0"], UnOps=[], BinOps=[], Stmts=["Store", "Return", "Approve"],
+                 Ctrl=["Seq2", "Seq3", "If2", "If3", "IfMixed", "Cond2", "VSeq"], NVarsU=1, NVarsB=0, InitVars=False)
 A_UNINIT = dict(Leaves=["i1", "au0"], UnOps=[], BinOps=["<"], Stmts=["Pop", "Store", "Return", "Approve"],
                 Ctrl=["Seq2", "Seq3", "If2", "If3", "Cond2", "While", "For", "Break", "Continue", "VSeq"],
                 NVarsU=2, NVarsB=0, InitVars=False)
@@ -226,7 +229,8 @@ def c20_programs(tier, seed, rnd):
              ("loops", A_LOOPS, 6 if q else 7, 500 if q else 8000),
              ("nest", A_NEST, 8 if q else 9, 600 if q else 6000),
              ("degen", A_DEGEN, 8 if q else 9, 12000 if q else 150000),
-             ("uninit", A_UNINIT, 6 if q else 7, 800 if q else 10000)]
+             ("uninit", A_UNINIT, 6 if q else 7, 800 if q else 10000),
+             ("initarm", A_INITARM, 9 if q else 10, 5000 if q else 60000)]
     progs, results = [], []
     for name, alpha, n, cap in plans:
         c = dict(alpha)
@@ -236,7 +240,7 @@ def c20_programs(tier, seed, rnd):
         results.append(res)
         for p in rs:
             p = with_vars(finalize(p), c)
-            if name == "degen":
+            if name in ("degen", "initarm"):
                 p["smallgrid"] = 1          # many shapes, few settings (crashes on degenerate shapes do not depend on the version)
             progs.append(p)
     # programs with subroutines (recursion, by-reference parameters, routine-private variables - some never initialised)
@@ -262,7 +266,8 @@ def c17_programs(tier, seed, rnd):
     q = tier == "quick"
     plans = [("uninit", A_UNINIT, 7 if q else 8, 3000 if q else 40000),
              ("uninit_idx", A_UNINIT_IDX, 7 if q else 8, 1500 if q else 20000),
-             ("degen", A_DEGEN, 6 if q else 7, 1000 if q else 15000)]
+             ("degen", A_DEGEN, 6 if q else 7, 1000 if q else 15000),
+             ("initarm", A_INITARM, 9 if q else 10, 2500 if q else 40000)]
     progs, results = [], []
     for name, alpha, n, cap in plans:
         c = dict(alpha)
